@@ -684,6 +684,12 @@ impl img::DiskImage for Td0 {
                 let mut src_offset = 0;
                 let psec_size = SECTOR_SIZE_BASE << sector_shift;
                 let padded = super::quantize_block(dat, chs_list.len()*psec_size);
+                // every sector of the block has to be there before any of them is written
+                for [cyl,head,lsec] in &chs_list {
+                    self.check_user_area_up_to_cyl(*cyl, off)?;
+                    let skew_table = self.get_skew(*head)?;
+                    self.read_sector(*cyl,*head,skew_table[*lsec-1] as usize)?;
+                }
                 for [cyl,head,lsec] in chs_list {
                     self.check_user_area_up_to_cyl(cyl, off)?;
                     let skew_table = self.get_skew(head)?;
@@ -703,6 +709,11 @@ impl img::DiskImage for Td0 {
                 let chs_list = skew::fat_blocking(deblocked_ts_list,self.heads)?;
                 let mut src_offset = 0;
                 let padded = super::quantize_block(dat, chs_list.len()*sec_size);
+                // every sector of the block has to be there before any of them is written
+                for [cyl,head,lsec] in &chs_list {
+                    self.check_user_area_up_to_cyl(*cyl, 0)?;
+                    self.read_sector(*cyl,*head,*lsec)?;
+                }
                 for [cyl,head,lsec] in chs_list {
                     self.check_user_area_up_to_cyl(cyl, 0)?;
                     match self.write_sector(cyl,head,lsec,&padded[src_offset..src_offset+sec_size].to_vec()) {
